@@ -272,6 +272,7 @@ type evidence struct {
 	Samples     []interface{}
 	Problems    []string
 	KnownLines  []string
+	LemmaLines  []string
 	ViolLines   []string
 	StatusCount map[string]int
 	Reached     map[string]int
@@ -381,6 +382,7 @@ func (e *evidence) write(path string) error {
 		"reachability_witnesses":        e.Reached,
 		"native_replays":                map[string]int{"run": e.Replays, "reproduced": e.ReplaysOK},
 		"known_findings_reported":       e.KnownLines,
+		"lemmas_failed":                 e.LemmaLines,
 		"violations_reported":           e.ViolLines,
 		"exhaustive":                    false,
 		"trusted_base":                  []string{"gosym symbolic interpreter over go/ssa (x/tools v0.29.0)", "z3 4.8.12", "environment models listed in DESIGN.md §2.5", "harness reference definitions"},
